@@ -133,7 +133,7 @@ def h_single(ctx, filt, chroms, alleles=False):
     try:
         out = getattr(segfilters, filt)(cna)
     except Exception as exc:
-        ctx.claim(False, f"{filt} raised {type(exc).__name__}")
+        claim_raised(ctx, f"{filt}", exc)
         return
     runs = runs_of(filt, cols)
     ctx.observe("n", len(out))
@@ -197,7 +197,7 @@ def h_chain(ctx, filters, chroms, method):
     try:
         out = call.do_call(cna, None, method, 2, None, False, True, None, flist)
     except Exception as exc:
-        ctx.claim(False, f"do_call raised {type(exc).__name__}")
+        claim_raised(ctx, "do_call", exc)
         return
     ctx.observe("n", len(out))
     ctx.observe("starts", col(out, "start"))
